@@ -163,6 +163,8 @@ reset:
 				// because it is not passing object by reference, but by value, so do not handle that since it is closing
 				d.log.Debugf("handleNewBlock, blockNum: %d, blockHash: %s", b.Num, b.Hash)
 				d.handleNewBlock(ctx, cancel, b)
+			} else {
+				downloadCh = verifClosedDownloadCh(downloadCh)
 			}
 		case firstReorgedBlock := <-d.reorgSub.ReorgedBlock:
 			d.log.Debug("handleReorg from block: ", firstReorgedBlock)
